@@ -413,8 +413,7 @@ func c10FailedResultUsed(ctx *core.Ctx, r *core.Report) {
 }
 
 // conversions that are exact by a domain invariant the width analysis cannot see.
-var c10Triage = map[string]string{
-}
+var c10Triage = map[string]string{}
 
 // lossyConversions applies the integer-width rule to every numeric conversion
 // of the given functions and returns how many it saw and how many are safe by
